@@ -104,6 +104,34 @@ def coq_query(text, timeout=600):
     return o, ""
 
 
+def skeleton_hint(asms, model):
+    """Which assumption of Model/SkeletonAssumptions.<asms> fails, at which call / access site
+    (for the replay detail when Proofs/Skeleton*.v breaks in the cone of an LTS property)."""
+    with L.Lock("coq"):
+        L.coq_project()
+        rc, o, e, _ = L.sh(f"make -f Makefile.coq -j{L.NCPU} Model/SkeletonAssumptions.vo Gen/Skeleton.vo", cwd=L.COQ, timeout=900)
+    if rc != 0:
+        return "could not evaluate the skeleton assumptions: " + (o + e)[-500:]
+    out, err = coq_query("From KV Require Import Model.SkeletonAssumptions.\n"
+                         f"Eval vm_compute in (failing calls accesses {asms}).\n")
+    if out is None:
+        return "could not evaluate the skeleton assumptions: " + err[-500:]
+    txt = " ".join(out.split())
+    txt = txt[:txt.rfind(": list")] if ": list" in txt else txt
+    return (f"synchronisation-skeleton assumptions of {model} violated by the source "
+            "(assumption, offending call sites (caller, callee, pos), offending accesses (function, field, pos)): " + txt[:1800])
+
+
+def annotate_skeleton_failure(ctx, violations, marker, asms, model, src):
+    """Called from the search() of the LTS checks: name the offending site in the replay detail."""
+    for v in violations:
+        if v.get("layer") == "obligation" and (marker in v.get("what", "") or marker in v.get("detail", "")):
+            hint = skeleton_hint(asms, model)
+            v["detail"] = (hint + "\n" + v.get("detail", ""))[-3000:]
+            v["what"] += f": a locking / goroutine-structure assumption of the model no longer holds of {src}"
+            ctx.notes.append(hint[:1500])
+
+
 def offenders(exempted):
     """Access sites violating the policy: list of (type, field, kind, func, pos)."""
     facts = "(without exempt accesses)" if exempted else "accesses"
